@@ -4,7 +4,7 @@ from m4check import run_property
 
 def run(tier, seed):
     return run_property(
-        "C06", tier, seed, ["C06.v"], ["props/C06.vo"],
+        "C06", tier, seed, ["C06.v", "M4link.v"], ["props/C06.vo", "props/M4link.vo"],
         profile={"deploy": 6, "deploy_fail": 9, "redeploy_same_fail": 5, "remove": 2, "restart": 1, "rollout_deploy": 3, "rollout_set": 3,
                  "rollout_stop": 1, "pause": 2, "stop": 2, "resume": 2},
         monitor="c06_ok None h", n_quick=40, n_thorough=600)
